@@ -168,13 +168,14 @@ theorem isFileP_tail_eq (s : Store) (b : Nat) : isFileP s (.bandTail b) = isComp
 
 /-- The two stores look alike to `stitchDown` below `b`: every version with a head file that the
 walk reaches (it stops at the first one with a tail) holds the same in both; a version without head
-file in `s` has none in `s'` either. -/
+file in `s` has none in `s'` either, and has index hunk 0 in both or in neither (what the repaired
+`previous_existing_band` looks at to tell a lost head from a version that was never started). -/
 def ChainSame (s s' : Store) : Nat → Prop
   | 0 => True
   | b + 1 =>
     if isFileP s (.bandHead b) then
       BandSame s s' b ∧ (isFileP s (.bandTail b) = false → ChainSame s s' b)
-    else isFileP s' (.bandHead b) = false ∧ ChainSame s s' b
+    else isFileP s' (.bandHead b) = false ∧ isFileP s' (.hunk b 0) = isFileP s (.hunk b 0) ∧ ChainSame s s' b
 
 theorem stitchDownP_same {s s' : Store} (hs : s.NoDupKeys) (hs' : s'.NoDupKeys) (b : Nat) :
     ChainSame s s' b → ∀ last, stitchDownP s' b last = stitchDownP s b last := by
@@ -194,7 +195,7 @@ theorem stitchDownP_same {s s' : Store} (hs : s.NoDupKeys) (hs' : s'.NoDupKeys) 
         simp only [ht', Bool.false_eq_true, if_false, ih (hrest ht')]
     · have hh' : isFileP s (.bandHead b) = false := by simpa using hh
       simp only [hh', Bool.false_eq_true, if_false] at h
-      simp only [stitchDownP, hh', h.1, Bool.false_eq_true, if_false, ih h.2]
+      simp only [stitchDownP, hh', h.1, h.2.1, Bool.false_eq_true, if_false, ih h.2.2]
 
 /-- **What a listing reads**: `stitchAll b` returns the same entries and reports the same errors on
 two maps that hold the same under `b`'s directory and — if `b` has no tail — look alike down the chain. -/
